@@ -14,6 +14,7 @@ import z3
 from ..driver import run_function
 from ..front import repo
 from ..oblig import PROVED, REFUTED, UNKNOWN, UNSUPPORTED, Obligation
+from ..values import Obj
 from .base import canon, classes_using, grouped_targets, parallel
 
 PROP = "C02"
@@ -111,7 +112,60 @@ def state_targets(r):
     for ci in sorted(r.classes.values(), key=lambda c: c.qual):
         if "__init__" in ci.methods:
             out.append(("init", ci.methods["__init__"].qual, ci.qual))
+    # public helpers that build terms without being builders (isin, between, join variants, ...): once per function
+    seen = set()
+    for fq, cq in c01.public_targets(r):
+        if fq not in seen:
+            seen.add(fq)
+            out.append(("public", fq, cq))
     return out
+
+
+def _order_stored(run) -> bool:
+    """does an ordered container that is returned or stored into an object take its elements from an iterated set?"""
+    from ..values import Obj,  Elems, IteV, MapPart, PreSeq, Tu
+    marks = getattr(run.ex, "set_part_reprs", set())
+    if not marks:
+        return True         # symbolic / constant set: be conservative
+    def part_from_set(p, depth=0):
+        if repr(p) in marks:
+            return True
+        if isinstance(p, MapPart) and depth < 6:
+            return any(part_from_set(q, depth + 1) for q in p.seq)
+        return False
+
+    def value_has(state, v, seen, depth=0):
+        if depth > 6:
+            return False
+        if isinstance(v, IteV):
+            return value_has(state, v.a, seen, depth + 1) or value_has(state, v.b, seen, depth + 1)
+        if isinstance(v, Tu):
+            return any(part_from_set(p) for p in v.parts) or any(
+                value_has(state, it, seen, depth + 1) for p in v.parts if isinstance(p, Elems) for it in p.items)
+        if isinstance(v, Obj) and v.oid in state.heap and v.oid not in seen:
+            seen.add(v.oid)
+            h = state.heap[v.oid]
+            if h.kind == "list" and any(part_from_set(p) for p in h.parts):
+                return True
+            if h.kind in ("list", "set"):
+                for p in h.parts:
+                    if isinstance(p, Elems) and any(value_has(state, it, seen, depth + 1) for it in p.items):
+                        return True
+                    if isinstance(p, MapPart):
+                        for _g, items in p.alts:
+                            if any(value_has(state, it, seen, depth + 1) for it in items):
+                                return True
+            if h.fresh and h.kind == "inst":
+                return any(value_has(state, av, seen, depth + 1) for av in h.attrs.values())
+        return False
+    for o in run.outcomes:
+        seen = set()
+        if o.status == "return" and value_has(o.state, o.value, seen):
+            return True
+        for w in o.state.writes:
+            if w.value is not None and value_has(o.state, w.value, seen):
+                return True
+    return False
 
 
 def check_state(item):
@@ -122,20 +176,33 @@ def check_state(item):
     r = repo()
     fi, ci = r.funcs[fq], r.classes[cq]
     name = f"{fi.short}@{ci.short}"
-    run = run_function(fi, ci, pre=c01._pre if kind == "builder" else None, self_fresh=(kind == "init"))
+    run = run_function(fi, ci, pre=c01._pre if kind in ("builder", "public") else None, self_fresh=(kind == "init"))
     if run.error:
         return [Obligation(PROP, f"{name}|state/iterable", "state/iterable", fi.short, UNSUPPORTED, reason=run.error)]
     gens = sorted({canon(n) for n in run.ex.notes_global if n.startswith("gen-stored:")})
+    out = []
     if not gens:
-        return [Obligation(PROP, f"{name}|state/iterable", "state/iterable", fi.short, PROVED,
-                           detail="every value stored into an object is re-iterable (no generator object stored)")]
-    return [Obligation(PROP, f"{name}|state/iterable|{g}", "state/iterable", fi.short, REFUTED,
+        out.append(Obligation(PROP, f"{name}|state/iterable", "state/iterable", fi.short, PROVED,
+                              detail="every value stored into an object is re-iterable (no generator object stored)"))
+    out += [Obligation(PROP, f"{name}|state/iterable|{g}", "state/iterable", fi.short, REFUTED,
                        detail=f"a generator object is stored ({g}); rendering consumes it",
                        reason=g, witness={"family": "pure", "func": fq, "cls": cq}) for g in gens]
+    # state/order: the tree a builder / constructor / helper builds does not depend on the iteration order of a
+    # hash-ordered container (the rendering of that tree would differ between processes)
+    setit = sorted({canon(n) for n in run.ex.notes_global if n.startswith("set-iter:")})
+    if setit and not _order_stored(run):
+        setit = []          # the set is only searched / tested (any, all, membership, error message): nothing ordered is kept
+    if not setit:
+        out.append(Obligation(PROP, f"{name}|state/order", "state/order", fi.short, PROVED,
+                              detail="no hash-ordered container is iterated in an order-sensitive position"))
+    out += [Obligation(PROP, f"{name}|state/order|{n}", "state/order", fi.short, REFUTED,
+                       detail="a hash-ordered container is iterated in an order-sensitive position while building state",
+                       reason=n, witness={"family": "pure", "func": fq, "cls": cq}) for n in setit]
+    return out
 
 
 def _dispatch(item):
-    if item[0] in ("builder", "init"):
+    if item[0] in ("builder", "init", "public"):
         return check_state(item)
     return check_one(item)
 
